@@ -62,6 +62,7 @@ fn dispatch(t: &[&str]) -> String {
         "tktypes" => takes::types(),
         "expr" => exprs::run(util::backend(t[1]), &sexp::parse(&t[2..].join(" "))),
         "stmt" => stmts::run(util::backend(t[1]), &sexp::parse(&t[2..].join(" "))),
+        "inject" => stmts::run_inject(util::backend(t[1]), &sexp::parse(&t[2..].join(" "))),
         "entry" => stmts::run_entry(util::backend(t[1]), &sexp::parse(&t[2..].join(" "))),
         "ftext" => {
             // ftext f32|f64 <bits-hex>: the Display text of the float
